@@ -694,8 +694,14 @@ public:
 
             if(s->val != 0.0)
             {
-               *e++ = *s;
-               ++nnz;
+               *e = *s;
+
+               // the converted value may underflow to zero
+               if(e->val != 0.0)
+               {
+                  ++e;
+                  ++nnz;
+               }
             }
 
             ++s;
